@@ -186,6 +186,12 @@ def run(chk):
             for cname in ("WD", "NS", "BH"):
                 a, b = getattr(obj.Nr, cname)[i], getattr(alone.Nr, cname)[0]
                 a2, b2 = getattr(obj.Mr, cname)[i], getattr(alone.Mr, cname)[0]
+                a3, b3 = getattr(obj.mr, cname)[i], getattr(alone.mr, cname)[0]
+                if C.all_same(list(a), list(b)) and C.all_same(list(a2), list(b2)) and not C.all_same(list(a3), list(b3)):
+                    j_ = [q_ for q_ in range(len(a3)) if not C.same_float(float(a3[q_]), float(b3[q_]))][0]
+                    chk.fail("the row for age T is the same whether T is requested alone or within a schedule", case,
+                             dict(row=i, age=t, array="mr." + cname, bin=j_, N_in_bin=float(a[j_]), mean_mass_in_schedule=float(a3[j_]), mean_mass_alone=float(b3[j_])))
+                    break
                 if not (C.all_same(list(a), list(b)) and C.all_same(list(a2), list(b2))):
                     chk.fail("BH ejection / targets at one age never affect another age" if cname == "BH" else
                              "the row for age T is the same whether T is requested alone or within a schedule", case,
